@@ -1,40 +1,193 @@
-//! Hang detector for C01's "always terminates", decided without wall-clock
-//! verdicts: a background thread watches a per-process operation counter; a
-//! hang is declared only if the counter has not moved **and** the process has
-//! burned >= CPU_LIMIT_S (30) seconds of CPU time since the last movement
-//! (no legitimate single call costs more than microseconds). A loaded
-//! machine slows the wall clock, not the CPU-time account of this process.
+//! Hang detector for "always terminates" (C01, and every monitor that calls a
+//! parser), decided without wall-clock verdicts.
+//!
+//! Every worker thread owns a slot: a sequence number bumped at the entry and
+//! exit of every observed call (`drive::call`) and at the start of every
+//! case, a "depth inside an observed call" counter, its Linux thread id, and
+//! a reference to the case it is executing. A background thread polls the
+//! slots and reads each thread's own CPU time from /proc/self/task/<tid>/stat.
+//!
+//! * A thread whose sequence number has not moved while it was **inside an
+//!   observed call** and while **that thread** burned >= `CALL_CPU_LIMIT_S`
+//!   seconds of CPU is a hang of the code under test (no legitimate single
+//!   call costs more than milliseconds): reported with the exact case.
+//! * A thread whose sequence number has not moved while it was **outside**
+//!   any observed call for >= `HARNESS_CPU_LIMIT_S` CPU-seconds is a stall of
+//!   the harness itself (generator, model, matcher): that is a harness error,
+//!   the run ends INCONCLUSIVE, never as a violation.
+//!
+//! A loaded machine slows the wall clock, not the CPU-time account of a thread.
 
-use std::sync::atomic::{AtomicBool, AtomicU64, Ordering};
+use crate::json::{hex, J};
+use std::sync::atomic::{AtomicBool, AtomicU32, AtomicU64, Ordering};
+use std::sync::{Arc, Mutex};
 
-static OPS: AtomicU64 = AtomicU64::new(0);
-static ARMED: AtomicBool = AtomicBool::new(false);
 pub static HANG: AtomicBool = AtomicBool::new(false);
-static CURRENT: std::sync::Mutex<Vec<(std::thread::ThreadId, String)>> = std::sync::Mutex::new(Vec::new());
+static ARMED: AtomicBool = AtomicBool::new(false);
+static TRACK: AtomicBool = AtomicBool::new(false);
 
-const CPU_LIMIT_S: f64 = 30.0;
+pub const CALL_CPU_LIMIT_S: f64 = 20.0;
+pub const HARNESS_CPU_LIMIT_S: f64 = 240.0;
 
-thread_local! {
-    static LOCAL: std::cell::Cell<u32> = const { std::cell::Cell::new(0) };
+/// What a thread is working on. The pointers are only dereferenced by the
+/// watchdog / death callback while holding the slot's mutex, and the owning
+/// thread clears them (under the same mutex) before the referent can go away.
+#[derive(Clone, Copy)]
+enum CaseRef {
+    Bytes { monitor: &'static str, ptr: *const u8, len: usize, a: u64, b: u64 },
+    Cfg { monitor: &'static str, cfg: *const crate::cfg::Cfg, owned: bool, wrap: bool },
+    Text { monitor: &'static str, ptr: *const u8, len: usize },
+}
+unsafe impl Send for CaseRef {}
+
+pub struct Slot {
+    tid: AtomicU32,
+    seq: AtomicU64,
+    depth: AtomicU32,
+    stack: Mutex<Vec<CaseRef>>,
 }
 
-/// Called after every observed call. Flushed to the shared counter every 256
-/// ticks (and on the first), so that 16 threads do not fight over one cache line.
+static SLOTS: Mutex<Vec<Arc<Slot>>> = Mutex::new(Vec::new());
+
+thread_local! {
+    static MY: Arc<Slot> = {
+        let s = Arc::new(Slot { tid: AtomicU32::new(my_tid()), seq: AtomicU64::new(0), depth: AtomicU32::new(0), stack: Mutex::new(Vec::new()) });
+        SLOTS.lock().unwrap().push(s.clone());
+        s
+    };
+}
+
+fn my_tid() -> u32 {
+    if cfg!(miri) {
+        return 0;
+    }
+    std::fs::read_link("/proc/thread-self")
+        .ok()
+        .and_then(|p| p.file_name().and_then(|f| f.to_str()).and_then(|s| s.parse().ok()))
+        .unwrap_or(0)
+}
+
+/// Entry of an observed call (see `drive::call`).
 #[inline]
-pub fn tick() {
-    LOCAL.with(|c| {
-        let v = c.get().wrapping_add(1);
-        c.set(v);
-        if v & 0xff == 1 {
-            OPS.fetch_add(1, Ordering::Relaxed);
-        }
+pub fn call_enter() {
+    MY.with(|s| {
+        s.depth.fetch_add(1, Ordering::Relaxed);
+        s.seq.fetch_add(1, Ordering::Relaxed);
+    });
+}
+/// Exit of an observed call.
+#[inline]
+pub fn call_exit() {
+    MY.with(|s| {
+        s.depth.fetch_sub(1, Ordering::Relaxed);
+        s.seq.fetch_add(1, Ordering::Relaxed);
     });
 }
 
-static TRACK: AtomicBool = AtomicBool::new(false);
+/// Guard for "this thread is executing this case"; dropping it removes the note.
+pub struct CaseGuard(bool);
+impl Drop for CaseGuard {
+    fn drop(&mut self) {
+        if self.0 {
+            MY.with(|s| {
+                s.stack.lock().unwrap().pop();
+                s.seq.fetch_add(1, Ordering::Relaxed);
+            });
+        }
+    }
+}
 
-/// Keep the per-thread "current case" up to date for every monitor (sanitizer tiers:
-/// the death callback dumps it, so that a report can be tied to an input).
+#[inline]
+fn active() -> bool {
+    ARMED.load(Ordering::Relaxed) || TRACK.load(Ordering::Relaxed)
+}
+
+fn push(c: CaseRef) -> CaseGuard {
+    MY.with(|s| {
+        s.stack.lock().unwrap().push(c);
+        s.seq.fetch_add(1, Ordering::Relaxed);
+    });
+    CaseGuard(true)
+}
+
+/// Note a byte-string case (`a`, `b`: extra integers some monitors need for a replay, e.g. pad / pt / min).
+#[inline]
+pub fn case_bytes(monitor: &'static str, b: &[u8]) -> CaseGuard {
+    case_bytes2(monitor, b, 0, 0)
+}
+#[inline]
+pub fn case_bytes2(monitor: &'static str, b: &[u8], a: u64, bb: u64) -> CaseGuard {
+    if !active() {
+        return CaseGuard(false);
+    }
+    push(CaseRef::Bytes { monitor, ptr: b.as_ptr(), len: b.len(), a, b: bb })
+}
+/// Note a configuration case.
+#[inline]
+pub fn case_cfg(monitor: &'static str, cfg: &crate::cfg::Cfg, how: crate::drive::How) -> CaseGuard {
+    if !active() {
+        return CaseGuard(false);
+    }
+    push(CaseRef::Cfg { monitor, cfg: cfg as *const _, owned: how.owned, wrap: how.wrap })
+}
+/// Note a case described by a string that outlives the guard (helper tuples).
+#[inline]
+pub fn case_text(monitor: &'static str, s: &str) -> CaseGuard {
+    if !active() {
+        return CaseGuard(false);
+    }
+    push(CaseRef::Text { monitor, ptr: s.as_ptr(), len: s.len() })
+}
+
+fn render(c: &CaseRef) -> J {
+    // SAFETY: called with the slot mutex held; the owner cannot pop (and so cannot free the referent) meanwhile.
+    unsafe {
+        match *c {
+            CaseRef::Bytes { monitor, ptr, len, a, b } => {
+                let s = std::slice::from_raw_parts(ptr, len);
+                let m = match monitor {
+                    "c01" | "c08" | "c09-bytes" | "c10" | "c11" | "c12" | "c13" | "c15-direct" | "c18" | "c19-bytes" => monitor,
+                    other => other,
+                };
+                let mut j = J::obj().set("kind", "bytes").set("monitor", m).set("len", len).set("hex", hex(s));
+                if monitor == "c13" {
+                    j = j.set("pad", a);
+                }
+                if monitor == "c19-bytes" {
+                    j = j.set("pt", a).set("min", b);
+                }
+                j
+            }
+            CaseRef::Cfg { monitor, cfg, owned, wrap } => {
+                J::obj().set("kind", "cfg").set("monitor", monitor).set("owned", owned).set("wrap", wrap).set("cfg", (*cfg).to_json())
+            }
+            CaseRef::Text { monitor, ptr, len } => {
+                let s = std::slice::from_raw_parts(ptr, len);
+                J::obj().set("kind", "text").set("monitor", monitor).set("text", String::from_utf8_lossy(s).to_string())
+            }
+        }
+    }
+}
+
+/// The innermost case of every thread that is currently executing one.
+pub fn current_cases() -> Vec<J> {
+    let slots = match SLOTS.try_lock() {
+        Ok(g) => g.clone(),
+        Err(_) => return vec![],
+    };
+    let mut v = vec![];
+    for s in slots {
+        if let Ok(g) = s.stack.try_lock() {
+            if let Some(c) = g.last() {
+                v.push(render(c).set("in_observed_call", s.depth.load(Ordering::Relaxed) > 0));
+            }
+        }
+    }
+    v
+}
+
+/// Keep the per-thread "current case" up to date even when the watchdog is not armed
+/// (sanitizer tiers: the death callback dumps it, so that a report can be tied to an input).
 pub fn track_cases(on: bool) {
     TRACK.store(on, Ordering::SeqCst);
     if on {
@@ -63,30 +216,13 @@ fn install_death_callback() {
 /// Write the cases currently being executed (one per thread) to $RTCPMON_CASE_DUMP.
 pub fn dump_cases() {
     if let Ok(path) = std::env::var("RTCPMON_CASE_DUMP") {
-        if let Ok(g) = CURRENT.try_lock() {
-            let body: Vec<String> = g.iter().map(|e| format!("{:?}", e.1)).collect();
-            let _ = std::fs::write(path, format!("{{\"kind\": \"cases-at-death\", \"cases\": [{}]}}\n", body.join(", ")));
-        }
+        let j = J::obj().set("kind", "cases-at-death").set("cases", J::Arr(current_cases()));
+        let _ = std::fs::write(path, j.to_pretty());
     }
 }
 
-/// Per-thread note of the case being executed (used in the hang report and the sanitizer dump).
-pub fn note_case(desc: impl FnOnce() -> String) {
-    if !ARMED.load(Ordering::Relaxed) && !tracking() {
-        return;
-    }
-    let id = std::thread::current().id();
-    let mut g = CURRENT.lock().unwrap();
-    let d = desc();
-    if let Some(e) = g.iter_mut().find(|e| e.0 == id) {
-        e.1 = d;
-    } else {
-        g.push((id, d));
-    }
-}
-
-fn cpu_seconds() -> Option<f64> {
-    let s = std::fs::read_to_string("/proc/self/stat").ok()?;
+fn thread_cpu_seconds(tid: u32) -> Option<f64> {
+    let s = std::fs::read_to_string(format!("/proc/self/task/{tid}/stat")).ok()?;
     let rest = &s[s.rfind(')')? + 2..];
     let f: Vec<&str> = rest.split_whitespace().collect();
     // fields after comm: state(0) ... utime is field 14 overall => index 11 here, stime 12
@@ -95,33 +231,55 @@ fn cpu_seconds() -> Option<f64> {
     Some((ut + st) / 100.0)
 }
 
-/// Start the watchdog.
-pub fn arm(threads: usize, on_hang: impl Fn(Vec<String>) + Send + 'static) {
+pub enum Stall {
+    /// a thread is stuck inside an observed call: the code under test does not terminate
+    InCall(J),
+    /// a thread is stuck outside any observed call: harness error
+    Harness(J),
+}
+
+/// Start the watchdog. `on_stall` must not return (it ends the process).
+pub fn arm(on_stall: impl Fn(Stall) + Send + 'static) {
     if cfg!(miri) || ARMED.swap(true, Ordering::SeqCst) {
         return;
     }
     std::thread::spawn(move || {
-        let mut last_ops = OPS.load(Ordering::Relaxed);
-        let mut cpu_at_last_move = cpu_seconds().unwrap_or(0.0);
+        // per slot: (last seq seen, thread CPU when it last moved)
+        let mut seen: Vec<(u64, f64)> = vec![];
         loop {
             std::thread::sleep(std::time::Duration::from_millis(500));
-            let ops = OPS.load(Ordering::Relaxed);
-            let cpu = match cpu_seconds() {
-                Some(c) => c,
-                None => return,
-            };
-            if ops != last_ops {
-                last_ops = ops;
-                cpu_at_last_move = cpu;
-                continue;
-            }
-            // No observed call completed anywhere in the process. Only a spinning
-            // thread accumulates CPU; an idle process (all workers done) does not.
-            let _ = threads;
-            if cpu - cpu_at_last_move >= CPU_LIMIT_S {
+            let slots: Vec<Arc<Slot>> = SLOTS.lock().map(|g| g.clone()).unwrap_or_default();
+            for (i, s) in slots.iter().enumerate() {
+                let tid = s.tid.load(Ordering::Relaxed);
+                if tid == 0 {
+                    continue;
+                }
+                let Some(cpu) = thread_cpu_seconds(tid) else { continue };
+                let seq = s.seq.load(Ordering::Relaxed);
+                if i >= seen.len() {
+                    seen.resize(i + 1, (u64::MAX, 0.0));
+                }
+                if seen[i].0 != seq {
+                    seen[i] = (seq, cpu);
+                    continue;
+                }
+                let burned = cpu - seen[i].1;
+                let in_call = s.depth.load(Ordering::Relaxed) > 0;
+                let limit = if in_call { CALL_CPU_LIMIT_S } else { HARNESS_CPU_LIMIT_S };
+                if burned < limit {
+                    continue;
+                }
+                // stuck: render the case under the slot's mutex, confirm nothing moved meanwhile
+                let case = {
+                    let g = s.stack.lock().unwrap();
+                    g.last().map(render)
+                };
+                if s.seq.load(Ordering::Relaxed) != seq {
+                    continue;
+                }
+                let case = case.unwrap_or_else(|| J::obj().set("kind", "none")).set("cpu_seconds_in_this_state", burned);
                 HANG.store(true, Ordering::SeqCst);
-                let cases = CURRENT.lock().map(|g| g.iter().map(|e| e.1.clone()).collect()).unwrap_or_default();
-                on_hang(cases);
+                on_stall(if in_call { Stall::InCall(case) } else { Stall::Harness(case) });
                 return;
             }
         }
